@@ -42,7 +42,7 @@ def gen_cases(tier: str, seed: int):
     for wi in range(1, len(WINDOWS)):
         for lo in range(0, 601, block):
             yield {"kind": "stager", "window": wi, "lo": lo, "hi": min(lo + block, 601)}
-    n = {"quick": 60, "thorough": 700}[tier]
+    n = {"quick": 60, "thorough": 1500}[tier]
     rng = np.random.default_rng([seed, 16])
     warm_choices = list(range(0, 13)) + [37, 150]
     for i in range(n):
